@@ -111,7 +111,7 @@ namespace osmium {
                         if (c <= 0xff) {
                             append_2_hex_digits(out, c, lookup_hex);
                         } else {
-                            append_min_4_hex_digits(out, c, lookup_hex);
+                            append_min_4_hex_digits(out, static_cast<uint8_t>(*prev), lookup_hex);  // O8: first byte, not the code point
                         }
                         out += ';';  // O2: the reader ends an escape on '%'
                     }
